@@ -18,6 +18,7 @@ A *program* is a list of statements in SSA form (statement k defines variable k)
     {"op": "transform", "a": v, "func": "lookup", "r": [w...], "params": [i...], ...}   (C14: func hands back the existing action r[i])
     {"op": "map", "a": v, "fn": "keep", "static": spec}    (C14: static arguments of other types, see make_static)
     {"op": "alias", "a": v, "how": "select"|"iselect"}     (C14: a.select({}) — documented to hand back the action itself)
+    map / reduce with "share": n                             (C14: ONE Payload object per n and build, passed to several operations)
 
 Nothing here depends on the Lean model.
 """
@@ -155,12 +156,27 @@ def _dimarg(d):
     return d if isinstance(d, str) else (d[0], list(d[1]))
 
 
+_SHARED_PAYLOADS = {}     # (id(env), n) -> Payload object, per build
+
+
+def _shared_payload(st, env, payload):
+    """C14: a user may keep one Payload object and pass it to several operations"""
+    from earthkit.workflows import fluent as fl
+    key = (id(env), st["share"])
+    if key not in _SHARED_PAYLOADS:
+        _SHARED_PAYLOADS[key] = payload if isinstance(payload, fl.Payload) else fl.Payload(payload)
+    return _SHARED_PAYLOADS[key]
+
+
 def exec_stmt(st, env):
     """Apply one statement to the REAL fluent API. env: list of Action | None. Returns Action."""
     from earthkit.workflows import backends
     from earthkit.workflows import fluent as fl
 
     op = st["op"]
+    if not env:
+        for key in [k for k in _SHARED_PAYLOADS if k[0] == id(env)]:
+            del _SHARED_PAYLOADS[key]
     if op == "source":
         dims = [d for d, _ in st["dims"]]
         shape = tuple(len(l) for _, l in st["dims"])
@@ -175,11 +191,14 @@ def exec_stmt(st, env):
         if "static" in st:
             sargs, skw = make_static(st["static"])
             payload = fl.Payload(fn, args=sargs, kwargs=skw)
+        if "share" in st:
+            payload = _shared_payload(st, env, payload)
         y = st.get("yields")
         return a.map(payload, yields=(y[0], list(y[1])) if y else None)
     if op == "reduce":
         y = st.get("yields")
-        return a.reduce(CUSTOM[st["fn"]], yields=(y[0], list(y[1])) if y else None, dim=st["dim"],
+        rp = _shared_payload(st, env, CUSTOM[st["fn"]]) if "share" in st else CUSTOM[st["fn"]]
+        return a.reduce(rp, yields=(y[0], list(y[1])) if y else None, dim=st["dim"],
                         batch_size=st["bs"], keep_dim=st["keep"])
     if op == "named":
         kw = dict(st.get("kw") or [])
